@@ -23,7 +23,7 @@ import (
 
 // C20 — Log formatting is faithful and stays within its buffer.
 
-const c20Rule = "field values: all 65536 uint16 (decimal and hex), all 256 uint8, every byte value in every MAC position and in ByteArray, every IPv6 zero/non-zero group layout x 5 group-value shapes (as net.IP and netip.Addr) plus IPv4, 4-in-6, nil; boundary and random uint32/int; rapid-drawn lines of 1..12 mixed fields whose reference text is < 2000 bytes (ToString and Write); over-long ByteArray/StringArray/IPArray after prefixes of drawn length (cut only when the complete line would not fit; the next line rendered from the pooled buffer must be complete); String() of every valid view and of table entries. reference = stdlib renderers (netip, net, strconv, fmt, time). non-trivial = IP with >= 1 zero group, line with >= 2 fields, or a truncated array; distinct by hash of the field list"
+const c20Rule = "field values: all 65536 uint16 (decimal and hex), all 256 uint8, every byte value in every MAC position and in ByteArray, every IPv6 zero/non-zero group layout x 5 group-value shapes (as net.IP and netip.Addr) plus IPv4, 4-in-6, nil; boundary (every 10^k-1, 10^k, 10^k+1 and the binary extremes) and random uint32/int; rapid-drawn lines of 1..12 mixed fields whose reference text is < 2000 bytes (ToString and Write); over-long ByteArray/StringArray/IPArray after prefixes of drawn length (cut only when the complete line would not fit; the next line rendered from the pooled buffer must be complete); String() of every valid view and of table entries. reference = stdlib renderers (netip, net, strconv, fmt, time). non-trivial = IP with >= 1 zero group, line with >= 2 fields, or a truncated array; distinct by hash of the field list"
 
 type c20Field struct {
 	Kind  string   `json:"kind"`
@@ -438,6 +438,20 @@ func c20GenIP6(t *rapid.T) string {
 	return netip.AddrFrom16(a).String()
 }
 
+// Values at which the number of digits changes, and their neighbours: 10^k-1, 10^k, 10^k+1 for every k that fits, with the
+// binary extremes (a digit-count ladder with one wrong rung shows at exactly one such value).
+var c20EdgesU32, c20EdgesInt = func() ([]uint32, []int64) {
+	u := []uint32{0, 1, 4294967295, 4294967294, 1 << 31, 1<<31 - 1}
+	for p := uint64(10); p <= 1000000000; p *= 10 {
+		u = append(u, uint32(p-1), uint32(p), uint32(p+1))
+	}
+	i := []int64{0, -1, 1, 1<<31 - 1, -1 << 31, 1 << 31, 1<<32 - 1, 1 << 32, -1 << 32, 1<<63 - 1, -1 << 63, -1<<63 + 1}
+	for p := int64(10); p > 0 && p <= 1000000000000000000; p *= 10 {
+		i = append(i, p-1, p, p+1, -p+1, -p, -p-1)
+	}
+	return u, i
+}()
+
 // c20GenDuration: everyday values, the boundaries of the unit switches, whole seconds at and beyond 2^31 / 2^32 seconds,
 // the extremes and negative values.
 func c20GenDuration(t *rapid.T) int64 {
@@ -455,9 +469,9 @@ func c20GenField(t *rapid.T) c20Field {
 	case "uint16", "uint16hex":
 		f.U = uint64(rapid.Uint16().Draw(t, "u16"))
 	case "uint32":
-		f.U = uint64(rapid.OneOf(rapid.Uint32(), rapid.SampledFrom([]uint32{0, 1, 9, 10, 99, 100, 999999999, 1000000000, 4294967295, 4294967294})).Draw(t, "u32"))
+		f.U = uint64(rapid.OneOf(rapid.Uint32(), rapid.SampledFrom(c20EdgesU32)).Draw(t, "u32"))
 	case "int":
-		f.I = rapid.OneOf(rapid.Int64Range(-1<<40, 1<<40), rapid.SampledFrom([]int64{0, -1, 1, 9, 10, -10, 1<<31 - 1, -1 << 31, 1<<63 - 1, -1 << 63})).Draw(t, "int")
+		f.I = rapid.OneOf(rapid.Int64Range(-1<<40, 1<<40), rapid.SampledFrom(c20EdgesInt)).Draw(t, "int")
 	case "bool":
 		f.U = uint64(rapid.IntRange(0, 1).Draw(t, "b"))
 	case "string", "error":
